@@ -54,7 +54,7 @@ def bl_cleanup(b, bb):
     return b.is_cleanup(bb)
 
 
-def widened(b, rv, depth=3):
+def widened(b, rv, depth=5):
     """both operands of a subtraction in a wide type (i128 / u128 / i64) are constants or values cast up from a type at most half
     as wide, possibly combined by one more such + / - : the exact result always fits"""
     aty = rv.get('aty') or ''
@@ -74,6 +74,9 @@ def widened(b, rv, depth=3):
             if not (len(p['p']) == 1 and isinstance(p['p'][0], dict) and 'f' in p['p'][0]):
                 return False
             ds = b.defs().get(p['l'], [])
+            if len(ds) > 1 and d > 0 and all(x[0] == 'stmt' and x[3]['rv']['k'] == 'agg' and x[3]['rv'].get('ak') == 'tuple' and p['p'][0]['f'] < len(x[3]['rv']['ops']) for x in ds):
+                # a tuple chosen by an if / match: `let (low, high) = if c { (a, b) } else { (b, a) }` -- every arm's component
+                return all(narrow(x[3]['rv']['ops'][p['p'][0]['f']], d - 1) for x in ds)
             if len(ds) != 1 or ds[0][0] != 'stmt':
                 return False
             r0 = ds[0][3]['rv']
@@ -83,9 +86,13 @@ def widened(b, rv, depth=3):
                 return narrow(r0['a'], d - 1) and narrow(r0['b'], d - 1)
             return False
         ds = b.defs().get(p['l'], [])
+        if len(ds) > 1 and d > 0 and all(x[0] == 'stmt' and x[3]['rv']['k'] == 'use' for x in ds):
+            return all(narrow(x[3]['rv']['op'], d - 1) for x in ds)
         if len(ds) != 1 or ds[0][0] != 'stmt':
             return False
         r2 = ds[0][3]['rv']
+        if r2['k'] == 'un' and r2.get('op') == 'Neg' and d > 0:
+            return narrow(r2['a'], d - 1)
         if r2['k'] == 'cast' and r2.get('ck') == 'IntToInt':
             sp = op_place(r2['op'])
             sty = b.local_ty(sp['l']) if sp is not None and not sp['p'] else ''
